@@ -291,7 +291,7 @@ impl Prop for C06P {
     }
     fn plan(&self, tier: Tier, _seed: u64) -> Plan {
         let mut p = Plan::new(
-            vec![sec("pinned", 200), sec("programs-and-reducts", tier.pick(20_000, 200_000)), sec("pairs-of-same-type", tier.pick(16_000, 160_000)), sec("edited-pairs", tier.pick(16_000, 160_000))],
+            vec![sec("pinned", 200), crate::fw::sec_ex("operator-table", (9 * crate::props::c02::NOPER * crate::props::c02::NOPER) as u64), sec("programs-and-reducts", tier.pick(20_000, 200_000)), sec("pairs-of-same-type", tier.pick(16_000, 160_000)), sec("edited-pairs", tier.pick(16_000, 160_000))],
             "generated explicit programs of ground and function type (strongly normalising by construction): unify(t, t); unify of t with each of its first 30 reducts on the evaluation trace, in both directions; normalize_weak_head of ground programs against the evaluated literal; pairs of independently generated terms of the same type, pairs (t, perturbed t) and pairs (t, structurally edited t: tweaked literal, flipped boolean, dropped/swapped/duplicated definitions of a group, swapped branches or operands; kept when R-core accepts the edit at the same type): unify(a, b) = unify(b, a) = equality of the reference's normal forms; non-trivial = distinct hole-free accepted program or pair",
         );
         p.assumptions = vec![
@@ -318,6 +318,15 @@ impl Prop for C06P {
                 let mut r = Rng::for_case(ctx.seed, 1, idx);
                 let p = gen_for_reducts(&mut r, idx);
                 let src = print(&p.h, &Style::varied(&mut r), idx).text;
+                check_program(ctx, &src);
+            }
+            "operator-table" => {
+                // the normaliser has its own arithmetic: every operator on every pair of the
+                // operands of C02's table, through unify (term against reduct) and whnf
+                let n = crate::props::c02::NOPER;
+                let op = crate::eterm::ALL_OPS[(idx as usize) / (n * n)];
+                let h = crate::hast::H::Bin(op, crate::hast::hb(crate::props::c02::operand((idx as usize / n) % n)), crate::hast::hb(crate::props::c02::operand(idx as usize % n)));
+                let src = print(&h, &Style::plain(), 0).text;
                 check_program(ctx, &src);
             }
             "edited-pairs" => {
